@@ -135,6 +135,7 @@ type recMetrics struct{ in *Inst }
 
 func (m *recMetrics) SetIsLeader(v float64, _ prometheus.Labels) {
 	in, w := m.in, m.in.w
+	w.point("Metrics.SetIsLeader", m) // user callbacks are scheduling points too (fine mode)
 	w.lock()
 	in.gauge = int(v)
 	ls, lt := w.leadersNow()
@@ -145,6 +146,7 @@ func (m *recMetrics) SetConnectionStatus(v float64, _ prometheus.Labels) {
 	m.in.w.evL(Ev{K: "connstatus", I: m.in.spec.ID, N: int(v)})
 }
 func (m *recMetrics) IncTransitions(l prometheus.Labels) {
+	m.in.w.point("Metrics.IncTransitions", m)
 	m.in.w.evL(Ev{K: "transition", I: m.in.spec.ID, S: l["from_state"], S2: l["to_state"]})
 }
 func (m *recMetrics) IncFailures(prometheus.Labels)                 {}
@@ -243,6 +245,7 @@ func (in *Inst) create() error {
 	w := in.w
 	id := in.spec.ID
 	el.OnPromote(func(ctx context.Context, token string) {
+		w.point("OnPromote", in)
 		w.lock()
 		in.nProm++
 		t := &Term{Inst: id, Token: token, TStart: w.now(), ctx: ctx}
@@ -261,6 +264,7 @@ func (in *Inst) create() error {
 		w.unlock()
 	})
 	el.OnDemote(func() {
+		w.point("OnDemote", in)
 		w.lock()
 		in.nDem++
 		ls, lt := w.leadersNow()
